@@ -288,7 +288,8 @@ func (exec *Executor) execMethodBigInt(
 		if err != nil {
 			var f float64
 			f, err = val.Float64()
-			if err != nil || f > math.MaxInt64 || f < math.MinInt64 || math.IsInf(f, 0) || math.IsNaN(f) {
+			// float64(math.MaxInt64) is 2^63, which does not fit in int64.
+			if err != nil || f >= math.MaxInt64 || f < math.MinInt64 || math.IsInf(f, 0) || math.IsNaN(f) {
 				return exec.returnVerboseError(fmt.Errorf(
 					`%w: argument "%v" of jsonpath item method %v is invalid for type %v`,
 					ErrVerbose, val, node.Name(), "bigint",
